@@ -186,7 +186,9 @@ class Explorer:
         return out
 
     def normalizer(self, st: State) -> Normalizer:
-        return Normalizer(self.ctx, self.fn, st.env, st.heap, 0, self.inline, self.inline_ok, self.self_term)
+        n = Normalizer(self.ctx, self.fn, st.env, st.heap, 0, self.inline, self.inline_ok, self.self_term)
+        n.local_defs = self.__dict__.setdefault("_local_defs", {})
+        return n
 
     # ------------------------------------------------------------------ truth
     def truth_of(self, t: Term, st: State) -> Optional[bool]:
@@ -280,6 +282,7 @@ class Explorer:
             if lam is not None:
                 try:
                     st.env[s.name] = self.normalizer(st).norm(lam)
+                    self.__dict__.setdefault("_local_defs", {})[s.name] = (lam, st.env[s.name])
                 except AnalysisError:
                     pass
         return [(st, None)]
@@ -301,6 +304,9 @@ class Explorer:
         free = {n.id for n in ast.walk(body[0].value) if isinstance(n, ast.Name)} - params
         outer = self.fn.node
         for n in ast.walk(outer):
+            if n is not s and ((isinstance(n, ast.Name) and isinstance(n.ctx, ast.Store) and n.id == s.name) or
+                               (isinstance(n, (ast.FunctionDef, ast.ClassDef)) and n.name == s.name)):
+                return None           # the name is bound more than once: which function a call reaches depends on the path
             if isinstance(n, ast.Name) and isinstance(n.ctx, ast.Store) and n.id in free and \
                     (n.lineno, n.col_offset) > (s.lineno, s.col_offset):
                 return None
@@ -361,7 +367,8 @@ class Explorer:
                 continue
             ns = st.copy()
             ns.events.extend(pa.state.events)
-            ns.facts.update(pa.state.facts)
+            ns.facts = dict(pa.state.facts)        # the callee started from the caller's facts: what it dropped (a store to a
+                                                   # term they mention) stays dropped
             ns.assumptions.extend(pa.state.assumptions)
             ns.heap = dict(pa.state.heap) if self.track_heap else ns.heap
             value = pa.value if pa.outcome == "return" and pa.value is not None else T.NONE
